@@ -87,6 +87,8 @@ pub enum FsOp {
     Touch { path: String },
     /// new content, mtime restored to what it was
     WriteKeepMtime { path: String, content: String },
+    /// new content with an mtime OLDER than the current one (an older revision moved in place)
+    WriteOlder { path: String, content: String },
     Create { path: String, content: String },
     Delete { path: String },
     Rename { from: String, to: String },
